@@ -150,6 +150,11 @@ func (g *Gen) Next(t *rapid.T) *Op {
 	add("read", true)
 	add("dumpLoad", !locked)
 	add("gc", true)
+	maxTypes := MaskBits + 1 // one attempt beyond the maximum is generated (must be rejected)
+	if g.P.MaxFill > 0 {
+		maxTypes = g.P.MaxFill + comps.N // histories that must stay within the 64-bit mask (C20)
+	}
+	add("register", g.It.B[0].Cfg.Filler+comps.N+m.Extra < maxTypes)
 	add("dump", true)
 	add("loadSaved", !locked && g.It.saved != nil)
 	add("probe", true)
@@ -252,6 +257,8 @@ func (g *Gen) Next(t *rapid.T) *Op {
 		op = &Op{K: "dump"}
 	case "loadSaved":
 		op = &Op{K: "loadSaved"}
+	case "register":
+		op = &Op{K: "register"}
 	case "gc":
 		op = &Op{K: "gc", Mode: rapid.IntRange(0, 1).Draw(t, "gcMode")}
 	case "dumpLoad":
